@@ -18,6 +18,10 @@ and one fixed variable, random histories on 2-4 ranks with sleeps) are executed 
 through harness/pnc_impl.c and by the model (vm_compute), and every observation is diffed:
 inq_numrecs and inq_nreqs of every rank after every call, the header field on disk after every
 collective call, return code of a read-back of the highest written record.
+Puts whose data contain a value not representable in the variable's type (R is NC_SHORT, memory type int)
+return NC_ERANGE and DO write: they count as completed writes (model: PRecE; put_varm's condition
+`status == NC_NOERR || status == NC_ERANGE` is read from the sources as built; the variant without the disjunct,
+run_noerange, is refuted by a witness and proved for histories without such puts).
 ORACLE (property text only) on the implementation's observations: equality across ranks, = 1 +
 highest record written, header equal, never decreasing, written records readable."""
 import os, re, time, concurrent.futures as cf
@@ -60,6 +64,25 @@ def detect_loop(lib):
     return None, 'unknown loop bound ' + m[0]
 
 
+ERANGE_RE = re.compile(r'if\(nelems>0&&(\(status==NC_NOERR\|\|status==NC_ERANGE\)|status==NC_NOERR|\(status==NC_NOERR\))\)\{if\(stride==NULL\)new_numrecs=start\[0\]\+count\[0\];')
+
+
+def detect_erange(lib):
+    """does put_varm compute new_numrecs for a put that returns NC_ERANGE?  True (`status == NC_NOERR ||
+    status == NC_ERANGE`), False (only NC_NOERR), None = condition not recognised"""
+    p = os.path.join(lib, 'gen', 'src', 'drivers', 'ncmpio', 'ncmpio_getput.c')
+    try:
+        txt = open(p).read()
+    except OSError:
+        return None, 'cannot read ' + p
+    txt = re.sub(r'/\*.*?\*/', '', txt, flags=re.S)
+    txt = re.sub(r'\s+', '', txt)
+    m = ERANGE_RE.findall(txt)
+    if len(m) != 1:
+        return None, 'new_numrecs condition of put_varm not recognised (%d matches)' % len(m)
+    return ('ERANGE' in m[0]), m[0]
+
+
 def impl_path(impl):
     """the harness binary lives in the content-addressed library cache, which a concurrent build of
     another tree may evict; rebuild it then (same tree hash -> same library)"""
@@ -76,6 +99,7 @@ def impl_path(impl):
 
 BASE_WATCHDOG = 90          # seconds for one history run alone (a history takes < 2 s on an idle machine)
 CONFIRM_FACTOR = 4          # serial confirmation runs get BASE_WATCHDOG * CONFIRM_FACTOR
+MODEL = dict(loop='fixed', er=True)   # model variant tied to the sources as built (set by run)
 CONFIRMED = {}              # failure kind -> True once a failure of that kind has been confirmed in this check run
 
 
@@ -158,13 +182,13 @@ def run_impl(hists, impl, wd, jobs=8, batch=30, tag='b', stats=None):
 
 
 def run_model(items, wd, jobs=8, shard=300, stats=None):
-    """items: list of (np, ops_term) -> list of (trace_head, trace_fixed, headok_head, headok_fixed)"""
+    """items: list of (np, ops_term) -> list of (trace, head_ok over the history) of the model variant MODEL"""
     shards = [items[i:i + shard] for i in range(0, len(items), shard)]
 
     def one(args, timeout=900):
         si, its = args
         p = os.path.join(wd, 'cases_%d.v' % si)
-        open(p, 'w').write(G.cases_v(its))
+        open(p, 'w').write(G.cases_v(its, MODEL['loop'], MODEL['er']))
         rc, out = C.sh(['coqc', '-Q', C.COQ, 'Pnc', '-w', '-all', p], timeout=timeout, cwd=wd)
         if rc == -9:
             return None                       # watchdog: confirmed serially below
@@ -237,6 +261,8 @@ def evaluate(ctx, hists, impl, wd, variant, stats, tag):
             stats['steps'][st['kind']] = stats['steps'].get(st['kind'], 0) + 1
             if st.get('subset'):
                 stats['subset_waits'] += 1
+            if st.get('erange') and any(st['erange']):
+                stats['steps_with_erange_put'] = stats.get('steps_with_erange_put', 0) + 1
         if any('sleep_ms' in l for l in h.lines):
             stats['with_sleeps'] += 1
         if d['status'] != 'ok':
@@ -246,12 +272,12 @@ def evaluate(ctx, hists, impl, wd, variant, stats, tag):
     for d, m in zip(ok, mres):
         h = d['h']
         fails = G.oracle(h, d['obs'])
-        tr = m[0] if variant == 'head' else m[1]
-        headok = m[2] if variant == 'head' else m[3]
+        tr, headok = m[0], m[1]
+        has_erange = any(st.get('erange') and any(st['erange']) and st['kind'] in ('coll_put', 'indep_put') for st in h.steps)
         mobs = G.model_obs(h, tr)
         mism = G.compare(h, d['obs'], mobs)
         stats['observations_compared'] += sum(2 * h.np + (1 if o['hdr'] is not None else 0) + len(o['get']) for o in d['obs'])
-        if not m[2]:
+        if not headok:
             stats['histories_outside_head_ok'] += 1
         # consistency of theorem and oracle: with the corrected loop, or when every wait is head_ok,
         # the theorems say the oracle cannot fail on the model's observations
@@ -261,7 +287,7 @@ def evaluate(ctx, hists, impl, wd, variant, stats, tag):
         if mism:
             stats['model_disagreements'] += 1
             disagreements.append((h, mism, d))
-        theorem_applies = (variant == 'fixed') or headok
+        theorem_applies = (MODEL['loop'] == 'fixed' or headok) and (MODEL['er'] or not has_erange)
         if fails and not mism and theorem_applies and not any(st['misuse'] for st in h.steps):
             disagreements.append((h, [dict(step=fails[0]['step'], rel='thm_C05_partial_vs_oracle',
                                            detail='oracle fails although the proved theorem covers this history and the model agrees: ' + fails[0]['detail'])], d))
@@ -289,7 +315,7 @@ def report(ctx, oracle_fails, disagreements, proof_ok, pr, variant, vdetail):
     if not proof_ok:
         broken.append('theorem(s) of Properties_C05.v no longer check: %s' % ', '.join(pr['failed'])[:400])
     if variant is None:
-        broken.append('tie of Numrecs.commit_loop to req_commit broken: ' + vdetail)
+        broken.append('tie of the model variant (Numrecs.commit_loop / part_new) to req_commit / put_varm broken: ' + vdetail)
     if disagreements:
         h, mism, d = disagreements[0]
         broken.append('correspondence %s (implementation vs model variant %s) differs in %d histories; first: %s step %d: %s'
@@ -311,11 +337,15 @@ def run(ctx):
     lib = C.libdir()
     impl = S.impl_exe(lib)
     wd = C.scratch()
-    variant, vdetail = detect_loop(lib)
+    loopv, vdetail = detect_loop(lib)
+    erv, edetail = detect_erange(lib)
+    MODEL.update(loop=loopv or 'head', er=True if erv is None else erv)
+    variant = None if (loopv is None or erv is None) else loopv + ('' if erv else '+noerange')
+    vdetail = 'req_commit loop bound: %s; put_varm new_numrecs condition: %s' % (vdetail, edetail)
     pr = C.prove('C05', gens=('consts',), lib=lib)
     proof_ok = ctx.add_proof(pr, CHECKER_CMD)
     ctx.cov['trusted_base'] = list(C.TRUSTED_COMMON) + [
-        'checks/C05.py detect_loop (regular expression that selects commit_loop / commit_fixed from ncmpio_wait.c as built)',
+        'checks/C05.py detect_loop / detect_erange (regular expressions that select commit_loop / commit_fixed from ncmpio_wait.c and the NC_ERANGE disjunct of put_varm from ncmpio_getput.c as built)',
         'pnc/c05_gen.py (script emission, rendering of histories as Coq terms, property oracle)']
     ctx.cov['model_variant'] = '%s (%s)' % (variant, vdetail)
     thorough = ctx.tier == 'thorough'
